@@ -322,20 +322,20 @@ pub fn sibling_pairs() -> Vec<E> {
     }
     fam.push(perms);
     let mut sizes = vec![];
-    for (c, n, u) in [(Cmp::Gt, 1u64, SUnit::K), (Cmp::Lt, 2, SUnit::K), (Cmp::Gt, 2, SUnit::K), (Cmp::Lt, 1, SUnit::M), (Cmp::Eq, 1, SUnit::K), (Cmp::Gt, 1024, SUnit::C), (Cmp::Lt, 4, SUnit::B), (Cmp::Gt, 0, SUnit::G)] {
+    for (c, n, u) in [(Cmp::Gt, 1u64, SUnit::K), (Cmp::Lt, 2, SUnit::K), (Cmp::Gt, 2, SUnit::K), (Cmp::Lt, 1, SUnit::M), (Cmp::Eq, 1, SUnit::K), (Cmp::Gt, 1024, SUnit::C), (Cmp::Lt, 4, SUnit::B), (Cmp::Gt, 0, SUnit::G), (Cmp::Lt, 1, SUnit::K), (Cmp::Gt, 5, SUnit::M), (Cmp::Lt, 3, SUnit::M)] {
         sizes.push(t(Tst::Size(c, n, u)));
     }
     fam.push(sizes);
     for w in [Which::A, Which::M] {
         let mut times = vec![];
-        for (c, n, u) in [(Cmp::Gt, 1u64, TUnit::D), (Cmp::Lt, 2, TUnit::D), (Cmp::Gt, 1440, TUnit::M), (Cmp::Lt, 48, TUnit::H), (Cmp::Eq, 1, TUnit::D), (Cmp::Gt, 60, TUnit::S), (Cmp::Lt, 1, TUnit::M)] {
+        for (c, n, u) in [(Cmp::Gt, 1u64, TUnit::D), (Cmp::Lt, 2, TUnit::D), (Cmp::Gt, 1440, TUnit::M), (Cmp::Lt, 48, TUnit::H), (Cmp::Eq, 1, TUnit::D), (Cmp::Gt, 60, TUnit::S), (Cmp::Lt, 1, TUnit::M), (Cmp::Gt, 9, TUnit::D), (Cmp::Lt, 0, TUnit::D)] {
             times.push(t(Tst::Time(w, c, n, u)));
         }
         fam.push(times);
     }
     fam.push(vec![t(Tst::Type(vec![FT::F])), t(Tst::Type(vec![FT::D])), t(Tst::Type(vec![FT::F, FT::D])), t(Tst::Type(vec![FT::L, FT::F])), t(Tst::Type(FT::ALL.to_vec()))]);
-    fam.push(vec![t(Tst::Uid(Cmp::Gt, 0)), t(Tst::Uid(Cmp::Lt, 1000)), t(Tst::Uid(Cmp::Eq, 0)), t(Tst::Uid(Cmp::Gt, 1000)), t(Tst::Uid(Cmp::Eq, 1000))]);
-    fam.push(vec![t(Tst::Links(Cmp::Gt, 1)), t(Tst::Links(Cmp::Lt, 3)), t(Tst::Links(Cmp::Eq, 2)), t(Tst::Links(Cmp::Gt, 2))]);
+    fam.push(vec![t(Tst::Uid(Cmp::Gt, 0)), t(Tst::Uid(Cmp::Lt, 1000)), t(Tst::Uid(Cmp::Eq, 0)), t(Tst::Uid(Cmp::Gt, 1000)), t(Tst::Uid(Cmp::Eq, 1000)), t(Tst::Uid(Cmp::Lt, 5))]);
+    fam.push(vec![t(Tst::Links(Cmp::Gt, 1)), t(Tst::Links(Cmp::Lt, 3)), t(Tst::Links(Cmp::Eq, 2)), t(Tst::Links(Cmp::Gt, 2)), t(Tst::Links(Cmp::Gt, 9)), t(Tst::Links(Cmp::Lt, 1))]);
     fam.push(vec![t(Tst::Name(s("a*"))), t(Tst::Name(s("*b"))), t(Tst::Name(s("ab"))), t(Tst::IName(s("AB"))), t(Tst::IName(s("a*"))), t(Tst::Path(s("a*"))), t(Tst::Name(s("*")))]);
     fam.push(vec![t(Tst::Xattr(s("user.tag"))), t(Tst::XattrMatch(s("user.tag"), s("v1"))), t(Tst::XattrMatch(s("user.tag"), s("v*"))), t(Tst::Xattr(s("tag"))), t(Tst::Pool(s("flash"))), t(Tst::Pool(s("ssd")))]);
     let mut out = vec![];
